@@ -72,9 +72,16 @@ def run(ctx):
         ev_t = a[3][a[4].index("events")]
         emp_ok = variant(emp_rep) == "Disabled" and isinstance(ev_t, tuple) and ev_t[0] == "call" and method_name(ev_t[1]) in ("new",)
     ck.ob("C09-S", emp.path, "summary:empty()={events:[],repeat:Disabled}", emp_ok)
-    app = ctx.body(MOD + "StepResult::append")
-    aps = [p for p in mir.walk_function(app) if p.outcome[0] == "return"]
-    app_ok = False
+    if not ctx.has_body(MOD + "StepResult::append"):
+        # (the helper is gone -- nothing appends one result to another any more; the per-function rules below read what
+        # each function returns directly)
+        app = None
+        aps = []
+        app_ok = True
+    else:
+        app = ctx.body(MOD + "StepResult::append")
+        aps = [p for p in mir.walk_function(app) if p.outcome[0] == "return"]
+        app_ok = False
     if len(aps) == 1:
         me = T("param", 1, app.dbg.get(1, ""))
         ot = T("param", 2, app.dbg.get(2, ""))
@@ -83,7 +90,7 @@ def run(ctx):
         app_ok = (len(stores) == 1 and stores[0].a == T("field", me, "repeat") and stores[0].b == T("field", ot, "repeat")
                   and len(appends) == 1 and appends[0].b == (T("field", me, "events"), T("field", ot, "events"))
                   and not any(e.kind == "guard" for e in aps[0].events))
-    ck.ob("C09-S", app.path, "summary:append(self,other):repeat:=other.repeat,events+=other.events", app_ok)
+    ck.ob("C09-S", MOD + "StepResult::append", "summary:append(self,other):repeat:=other.repeat,events+=other.events", app_ok)
     summaries = {MOD + "StepResult::empty": (lambda t: emp_rep)}
 
     # ---- R1 who may construct which variant
